@@ -52,6 +52,9 @@ func Trouble(format string, a ...any) {
 	os.Exit(2)
 }
 
+// TransientCrashes counts worker deaths of this check that did not reproduce.
+var TransientCrashes int
+
 // AutoYields is the number of scheduling points the last Build inserted.
 var AutoYields int
 
@@ -515,6 +518,7 @@ func Check(tier, id string) int {
 	exit := 0
 	reported := 0
 	var unconfirmed []string
+	var transient []string
 	var violSamples []any
 	knownCount := 0
 	for _, c := range classes {
@@ -544,6 +548,16 @@ func Check(tier, id string) int {
 			// a class whose replay does not reproduce is never reported as a
 			// VIOLATION; it is harness trouble unless another class of this
 			// very check has been confirmed (then that one is the verdict)
+			if strings.HasPrefix(c, "crash/") {
+				// a worker process died once and the run does not crash
+				// again in eight fresh processes: runs are deterministic,
+				// so this was not the code under test (observed once in
+				// ~4*10^7 goroutine dumps: the Go runtime's own unwinder
+				// faulting inside runtime.Stack under -race). Noted in the
+				// evidence, not a verdict.
+				transient = append(transient, fmt.Sprintf("seed %d run %d: %s", rec.Seed, rec.Run, rec.Result.Violation.Msg))
+				continue
+			}
 			unconfirmed = append(unconfirmed, fmt.Sprintf("violation of class %q found (seed %d run %d) but %v", c, rec.Seed, rec.Run, err))
 			continue
 		}
@@ -554,6 +568,10 @@ func Check(tier, id string) int {
 		violSamples = append(violSamples, map[string]any{"violation_class": c, "msg": min.Result.Violation.Msg, "replay": path})
 	}
 
+	for _, t := range transient {
+		fmt.Printf("  note: a worker process died once, not reproducible (not a verdict): %s\n", head(t, 300))
+	}
+	TransientCrashes = len(transient)
 	if len(harness) > 0 && exit == 0 {
 		if len(harness) > 5 {
 			harness = harness[:5]
